@@ -702,6 +702,16 @@ func (c *ExecCtx) frameAllowed(env *SpecEnv) (map[string][]*Term, map[string]boo
 					}
 				}
 			}
+		case *ast.MapType:
+			// modifies map[K]V : contents of every map of that type
+			if t := env.resolveType(x); t != nil {
+				if mt, ok := t.(*types.Map); ok {
+					hn, vn, ln, _, _ := c.mapHeaps(mt)
+					for _, h := range []string{hn, vn, ln} {
+						allowedAll[h] = true
+					}
+				}
+			}
 		case *ast.StarExpr:
 			v := env.eval(old, old, x.X)
 			if mt, ok := unalias(v.Ty).Underlying().(*types.Map); ok {
